@@ -36,6 +36,7 @@ type Cfg struct {
 	Crafted     []TxSpec // vertices sealed by the outside sealer M on a node's current tips
 	TrustedCraf []TxSpec // vertices sealed by the trusted sealer T
 	Truncate    bool
+	TruncCancel []int // C07: additionally offer truncations cancelled at the k-th context poll (once per node)
 	Tick        bool
 	Dup         bool // allow one duplicate delivery per (node, vertex)
 	Sync        bool // C14: evaluate sync to a spare node in every state (needs spare node name in Spare)
@@ -66,6 +67,7 @@ type Model struct {
 	// overBudget: some vertex was (or may have been) dropped because the orphan buffer was full or its
 	// retries were used up; the admission guarantee of C13 is only demanded inside that budget
 	overBudget bool
+	cancelledTrunc map[int]bool // a cancelled (partial) truncation happened on this node
 	synced     string // C14: "<variant>=<result>" once a sync event ran (terminal)
 	syncSrc    int
 }
@@ -98,6 +100,7 @@ func (m *Model) Init() {
 	m.crafted = map[string]bool{}
 	m.truncated = map[int]int{}
 	m.overBudget = false
+	m.cancelledTrunc = map[int]bool{}
 	m.synced = ""
 	m.pre = nil
 	for _, lists := range [][]TxSpec{m.Cfg.Menu, m.Cfg.Crafted, m.Cfg.TrustedCraf, m.Cfg.Hidden} {
@@ -200,6 +203,11 @@ func (m *Model) Enabled() []string {
 			s := n.Book.VerifSnapshot()
 			if len(s.Vertices) > td+1 && m.truncated[i] < 2 {
 				out = append(out, ev("T", i))
+				if !m.cancelledTrunc[i] {
+					for _, k := range m.Cfg.TruncCancel {
+						out = append(out, ev("TC", i, k))
+					}
+				}
 			}
 		}
 	}
@@ -288,6 +296,12 @@ func (m *Model) Apply(e string) string {
 		m.produced = append(m.produced, v)
 		m.delivered[fmt.Sprintf("%d/%d", i, len(m.produced)-1)]++
 		return world.ErrClass(m.W.Deliver(ctx, i, v))
+	case "TC":
+		i, _ := strconv.Atoi(p[1])
+		k, _ := strconv.Atoi(p[2])
+		m.cancelledTrunc[i] = true
+		err := m.nodes[i].Book.VerifTruncate(world.NewCountCtx(k))
+		return world.ErrClass(err)
 	case "T":
 		i, _ := strconv.Atoi(p[1])
 		m.truncated[i]++
@@ -328,9 +342,34 @@ func (m *Model) noteBudget(i int) {
 	}
 	for _, p := range s.Parked {
 		if p.Repeated >= repeats {
-			m.overBudget = true
+			// The retry budget only excuses a drop while something the vertex depends on has not even been
+			// delivered yet. Once every ancestor has reached the node (admitted or parked), a fair retry loop
+			// admits the vertex well inside the budget, so a drop is then the node's own doing.
+			if !m.allAncestorsDelivered(i, p.Vertex.Hash) {
+				m.overBudget = true
+			}
 		}
 	}
+}
+
+func (m *Model) allAncestorsDelivered(i int, h [32]byte) bool {
+	s := m.nodes[i].Book.VerifSnapshot()
+	held := map[[32]byte]bool{}
+	for _, v := range s.Vertices {
+		held[v.Hash] = true
+	}
+	for _, v := range s.Stored {
+		held[v.Hash] = true
+	}
+	for _, p := range s.Parked {
+		held[p.Vertex.Hash] = true
+	}
+	for a := range m.W.Ref.Ancestors(h) {
+		if !held[a] {
+			return false
+		}
+	}
+	return true
 }
 
 // ---- views ----
@@ -482,7 +521,7 @@ func (m *Model) fullKey(vs []view) string {
 		tr = append(tr, fmt.Sprintf("%d:%d", i, n))
 	}
 	sort.Strings(tr)
-	return strings.Join(parts, " ") + " PROD[" + strings.Join(prod, " ") + "] PROP[" + strings.Join(prop, " ") + "] CR[" + strings.Join(cr, " ") + "] TR[" + strings.Join(tr, " ") + "]" + fmt.Sprintf(" OB=%v SYNC=%s", m.overBudget, m.synced)
+	return strings.Join(parts, " ") + " PROD[" + strings.Join(prod, " ") + "] PROP[" + strings.Join(prop, " ") + "] CR[" + strings.Join(cr, " ") + "] TR[" + strings.Join(tr, " ") + "]" + fmt.Sprintf(" OB=%v SYNC=%s CT=%v", m.overBudget, m.synced, len(m.cancelledTrunc))
 }
 
 // Key returns the canonical key (hashed) of the whole world.
